@@ -34,6 +34,12 @@ def synthetic(c):
 def direct(c):
     kw = dict(target_epsilon=c['target'], target_delta=c['delta'], sample_rate=1 / c['L'], accountant=c['acc'], epsilon_tolerance=c['tol'])
     true_steps = c['epochs'] * c['L']
+    if c.get('prewarm'):
+        # an earlier calibration of the SAME budget in this process with a coarse tolerance (a dry run): the real call must not inherit it
+        try:
+            au.get_noise_multiplier(steps=true_steps, **dict(kw, epsilon_tolerance=c['prewarm']))
+        except Exception:
+            pass
     if c['by'] == 'steps':
         s = au.get_noise_multiplier(steps=true_steps, **kw)
     else:
